@@ -17,6 +17,7 @@ import (
 	"io"
 	"sort"
 	"strings"
+	"sync"
 )
 
 type heapElement struct {
@@ -71,6 +72,7 @@ type TopK struct {
 	accuracy  float64
 	sketch    *CountMinSketch
 	heap      minHeap
+	lock      sync.RWMutex
 }
 
 // TopKElement is the struct used to return the results of the TopK
@@ -86,7 +88,7 @@ type TopKElement struct {
 func NewTopK(k uint, errorRate, accuracy float64) *TopK {
 	sketch, _ := NewCountMinSketchFromEstimates(errorRate, accuracy)
 	heap := &minHeap{}
-	return &TopK{k, errorRate, accuracy, sketch, *heap}
+	return &TopK{k: k, errorRate: errorRate, accuracy: accuracy, sketch: sketch, heap: *heap}
 }
 
 // Insert puts the _data_ (byte slice) in the TopK data structure with _count_
@@ -97,6 +99,8 @@ func (t *TopK) Insert(data []byte, count uint64) {
 	if count <= 0 {
 		panic("count must be greater than zero")
 	}
+	t.lock.Lock()
+	defer t.lock.Unlock()
 	sketch := t.sketch
 	sketch.Update(data, count)
 	frequency := sketch.Count(data)
@@ -114,6 +118,8 @@ func (t *TopK) Insert(data []byte, count uint64) {
 
 // Values returns the top _k_ elements in the TopK data structure
 func (t *TopK) Values() []TopKElement {
+	t.lock.Lock()
+	defer t.lock.Unlock()
 	var results []TopKElement
 	for i := len(t.heap) - 1; i >= 0; i-- {
 		results = append(results, TopKElement{t.heap[i].value, t.heap[i].frequency})
@@ -151,6 +157,8 @@ type topKJSON struct {
 
 // Export JSON marshals the TopK and returns a byte slice containing the data
 func (t *TopK) Export() ([]byte, error) {
+	t.lock.Lock()
+	defer t.lock.Unlock()
 	var sketch countMinSketchJSON
 	sketch.AllSum = t.sketch.allSum
 	sketch.Columns = t.sketch.columns
@@ -217,6 +225,8 @@ func (t *TopK) Equals(u *TopK) (bool, error) {
 // number of bytes written.
 // It can be used to write to disk (using a file stream) or to network.
 func (t *TopK) WriteTo(stream io.Writer) (int64, error) {
+	t.lock.Lock()
+	defer t.lock.Unlock()
 	err := binary.Write(stream, binary.BigEndian, uint64(t.k))
 	if err != nil {
 		return 0, err
